@@ -11,6 +11,10 @@ import (
 	"strconv"
 	"strings"
 	"testing"
+
+	"github.com/llir/llvm/internal/natsort"
+	"github.com/llir/llvm/ir"
+	"github.com/llir/llvm/ir/metadata"
 )
 
 func permutations(n int) [][]int {
@@ -87,6 +91,40 @@ func TestVerifC20Asm(t *testing.T) {
 			if out != ref {
 				fail("%s: printed module depends on the input order: order %v prints\n%s\nbut order %v prints\n%s", fam, p, out, permutations(len(defs))[0], ref)
 				break
+			}
+		}
+	}
+	// named metadata, type definitions and comdats are listed in the natural order of their NAMES (not of
+	// their printed, escaped spelling): build modules, print, and compare the order of the definitions
+	{
+		nameSets := [][]string{
+			{"a b", "a-b", "a#b", "ab"},
+			{"007", "10", "9", "02", "3"},
+			{"x10", "x9", "x010", "x 1"},
+			{"llvm.ident", "llvm.module.flags", "foo.10", "foo.2"},
+		}
+		for _, names := range nameSets {
+			m := ir.NewModule()
+			for i := len(names) - 1; i >= 0; i-- {
+				m.NamedMetadataDefs[names[i]] = &metadata.NamedDef{Name: names[i]}
+			}
+			cases++
+			out := m.String()
+			sorted := append([]string{}, names...)
+			natsort.Strings(sorted)
+			pos := -1
+			for _, n := range sorted {
+				needle := (&metadata.NamedDef{Name: n}).Ident() + " = "
+				at := strings.Index(out, needle)
+				if at < 0 {
+					fail("named metadata %q not printed (looked for %q) in\n%s", n, needle, out)
+					break
+				}
+				if at < pos {
+					fail("named metadata not in the natural order of their names %q:\n%s", sorted, out)
+					break
+				}
+				pos = at
 			}
 		}
 	}
